@@ -19,7 +19,8 @@ from .interp import MAX_DT, MAX_DT_VALUE
 # symbolic constants with one value in proof mode and a scaled-down value in the finite scope
 INVALID_CURSOR = z3.Int("INVALID_CURSOR")
 SPECIAL = {"MAX_DT": (MAX_DT, MAX_DT_VALUE, lambda lo, hi: hi),
-           "INVALID_CURSOR": (INVALID_CURSOR, 2 ** 64 - 1, lambda lo, hi: hi + 2)}
+           "INVALID_CURSOR": (INVALID_CURSOR, 2 ** 64 - 1, lambda lo, hi: hi + 2),
+           "NPOS": (z3.Int("NPOS"), 2 ** 64 - 1, lambda lo, hi: hi + 2)}
 
 PROVE_MS = int(os.environ.get("CXXVC_PROVE_MS", "20000"))
 QUICK_MS = int(os.environ.get("CXXVC_QUICK_MS", "4000"))
